@@ -204,6 +204,19 @@ pub fn gen(tier: &str, seed: u64) -> Gen {
         cases.push(tl(vec![ts("hist"), ts(kind), tl(scripts)]));
     }
     fams.push(("1-3 earlier scripts from a pool of 15 state-changing or failing ones, then a hostile eval/expr".to_string(), hn, false));
+    // variable histories (the operation trees of C07: set/unset/incr/append/array operations on
+    // scalars and elements, `global` links, procedure calls ending normally or in an error), then
+    // every name is read, written and listed once more on the same interpreter
+    let vn = if thorough { 30_000 } else { 1200 };
+    for _ in 0..vn {
+        let len = 2 + rng.below(12);
+        let ops: Vec<Term> = (0..len).map(|_| super::c07::op(&mut rng, 0)).collect();
+        let c = super::c07::mk(ops);
+        let mut scripts: Vec<Term> = c.nth(0).as_list().to_vec();
+        scripts.push(ts("catch {set x}; catch {set y}; catch {set a}; catch {set \u{e9}}; catch {incr y}; catch {append x z}; catch {array get a}; catch {lappend a 1}; catch {array size y}; catch {unset x}; catch {array unset a}; info exists x"));
+        cases.push(tl(vec![ts("hist"), ts("eval"), tl(scripts)]));
+    }
+    fams.push(("variable histories (2-13 operations of C07's generator: scalars, elements, arrays, `global` links, procedure calls) followed by a read, write and listing of every name".to_string(), vn, false));
     (cases, fams)
 }
 
